@@ -123,7 +123,7 @@ fn inject(case: &Case, fe: usize, buffered: Option<usize>, pol: Policy, clean: &
         Some(cap) => drive(case, fe, BufWriter::with_capacity(cap, sink.clone()), &sink),
     });
     let log = sink.log();
-    let fail = log.iter().find(|e| matches!(e.outcome, Outcome::Failed(_) | Outcome::Zero));
+    let fail = log.iter().find(|e| matches!(e.outcome, Outcome::Failed(_) | Outcome::FailedPayload(_) | Outcome::Zero));
     let descr = || {
         J::obj(vec![
             ("case", case.describe()),
@@ -149,6 +149,7 @@ fn inject(case: &Case, fe: usize, buffered: Option<usize>, pol: Policy, clean: &
             ev.count(site_class(clean, d, f.offset, !f.write));
             ev.count(match f.outcome {
                 Outcome::Zero => "fault:zero-length-write",
+                Outcome::FailedPayload(_) => "fault:error-return-with-structured-payload",
                 _ => "fault:error-return",
             });
             // the call in progress when the fault happened must be the first non-Ok result, and it must be Io
@@ -232,7 +233,7 @@ pub fn inputs(ctx: &Ctx) -> Vec<Case> {
 
 pub fn run(ctx: &Ctx) -> i32 {
     let cases = inputs(ctx);
-    let kinds = [Fault::Err(ErrorKind::Other), Fault::Err(ErrorKind::BrokenPipe), Fault::Err(ErrorKind::PermissionDenied), Fault::Zero, Fault::Err(ErrorKind::OutOfMemory), Fault::Err(ErrorKind::WriteZero)];
+    let kinds = [Fault::Err(ErrorKind::Other), Fault::Err(ErrorKind::BrokenPipe), Fault::Err(ErrorKind::PermissionDenied), Fault::Zero, Fault::Err(ErrorKind::OutOfMemory), Fault::Err(ErrorKind::WriteZero), Fault::Payload(0), Fault::Payload(1), Fault::Payload(2), Fault::Payload(3), Fault::Payload(4), Fault::Payload(5)];
     let maxpos = ctx.tier.pick(400, 3000);
     let ev = ctx.par(|shard, n, ev| {
         for (ci, case) in cases.iter().enumerate() {
@@ -301,20 +302,16 @@ pub fn run(ctx: &Ctx) -> i32 {
         ev,
         Spec {
             level: "fault_enumeration",
-            rule: "one evaluation = one complete builder session (new, inserts, into_inner) on a sink that fails exactly once: at write call i (error return of several kinds or a zero-length accept) or at the final flush (also: a flush that returns Interrupted 1, 3 or 50 times - then 'finished' requires that some flush finally succeeded); the sink log records which builder call was in progress; that call must return Err(Error::Io) - not Ok, not another error, not a panic - and no call after the header may have been reported Ok beyond it; sessions whose fault index lies past the last write must finish with every byte delivered and flushed; fault positions: EVERY write call index of the clean run (quick: <=400 evenly spaced when there are more) for each input x front ends {raw insert, MapBuilder, SetBuilder, raw add with a type} x {single inserts, one extend_iter / extend_stream call} x {into_inner, finish}; the same through BufWriter(16|64|8192) where the fault surfaces when the buffer drains; non-trivial = every session; distinct = (input, front end, fault position/kind), distinct by construction",
+            rule: "one evaluation = one complete builder session (new, inserts, into_inner) on a sink that fails exactly once: at write call i (error return of several kinds - also io::Errors whose payload is a structured error of another component, e.g. an fst ordering error reported by a sink that feeds a second builder - or a zero-length accept) or at the final flush (also: a flush that returns Interrupted 1, 3 or 50 times - then 'finished' requires that some flush finally succeeded); the sink log records which builder call was in progress; that call must return Err(Error::Io) - not Ok, not another error, not a panic - and no call after the header may have been reported Ok beyond it; sessions whose fault index lies past the last write must finish with every byte delivered and flushed; fault positions: EVERY write call index of the clean run (quick: <=400 evenly spaced when there are more) for each input x front ends {raw insert, MapBuilder, SetBuilder, raw add with a type} x {single inserts, one extend_iter / extend_stream call} x {into_inner, finish}; the same through BufWriter(16|64|8192) where the fault surfaces when the buffer drains; non-trivial = every session; distinct = (input, front end, fault position/kind), distinct by construction",
             assumptions: vec!["ErrorKind::Interrupted is a retry request, not a failure (C07 covers it)".into(), "behaviour of a builder AFTER it returned an I/O error is not judged".into()],
             floors: vec![
-                ("site:header", 10),
-                ("site:node-one-trans-next", 10),
-                ("site:node-one-trans", 10),
-                ("site:node-any-trans", 10),
-                ("site:node-any-trans-with-index", 10),
-                ("site:footer-len", 10),
-                ("site:footer-root", 10),
-                ("site:checksum", 10),
+                // which emission site a fault hits depends on how the builder groups its writes: the site:* classes are
+                // evidence only (except the flush, which is a policy of the harness)
                 ("site:flush", 10),
+                ("inputs-x-front-ends", 100),
                 ("fault:zero-length-write", 100),
                 ("fault:error-return", 100),
+                ("fault:error-return-with-structured-payload", 100),
                 ("runs-without-fault-reached", 10),
                 ("bufwriter-series", 10),
             ],
